@@ -793,24 +793,6 @@ def uniformLeafFloat (lo hi v : Num) : Bool :=
   !(cmpLt v lo) && !(cmpLe hi v) &&
     ((lo.isFloat || hi.isFloat || v.isFloat) || (lo.isInt && hi.isInt && v.isInt))
 
-/-- the arguments of the `cdf` calls of a decision-table entry -/
-def cdfArgs : Prob.PExpr → List Prob.Arg
-  | .cdf a => [a]
-  | .pmf _ => []
-  | .oneSub e => cdfArgs e
-  | .sub e f => cdfArgs e ++ cdfArgs f
-  | .max0 e => cdfArgs e
-
-/-- is the value of the decision-table entry `e` a float in Python? -/
-def probFloat (x : RV) (slots : List (Option Num)) (e : Prob.PExpr) : Bool :=
-  match x.law, x.params with
-  | .cont (.uniform _ _), [lo, hi] =>
-    (cdfArgs e).any (fun a =>
-      match a with
-      | .var i => (match slots[i]? with | some (some v) => uniformLeafFloat lo hi v | _ => false)
-      | _ => false)
-  | _, _ => x.probFloat
-
 /-- a rational result in the kind Python delivers it: a float (the double nearest to the exact
     value) or the exact int / Fraction -/
 def deliver (isFloat : Bool) (q : Rat) : Num := if isFloat then .flt (ratToFloat q) else canon q
@@ -829,17 +811,54 @@ def probRefused (x : RV) (args : List Num) : Bool :=
   | .disc (.geometric _) => args.any (fun a => decide (a.toRat.floor.natAbs > maxThreshold))
   | _ => false
 
+/-- is the value of one `cdf` / `pmf` call a float in Python?  (the argument `a` of a continuous
+    variable's `cdf` is a plain argument `.var i` of the registered function) -/
+def leafFloat (x : RV) (slots : List (Option Num)) (a : Prob.Arg) : Bool :=
+  match x.law, x.params with
+  | .cont (.uniform _ _), [lo, hi] =>
+    (match a with
+     | .var i => (match slots[i]? with | some (some v) => uniformLeafFloat lo hi v | _ => false)
+     | _ => false)
+  | _, _ => x.probFloat
+
+/-- one `cdf(arg)` / `pmf(arg)` call: the `Prob` fragment's function on the exact argument (`math.floor`,
+    `math.ceil`, `- 1` as the decision table says; a discrete variable needs an int there), delivered in
+    Python's kind -/
+def leafNum (x : RV) (slots : List (Option Num)) (isPmf : Bool) (a : Prob.Arg) : Option Num :=
+  let env := Prob.envOf (slotTerms slots)
+  match x.law with
+  | .disc d => (a.evalZ env).map (fun k => deliver (leafFloat x slots a) (if isPmf then d.pmf k else d.cdf k))
+  | .cont d => if isPmf then Option.none else some (deliver (leafFloat x slots a) (d.cdf floatFns (a.evalQ env)))
+
+/-- Python's `a - b` on two numbers (a float result cannot overflow here) -/
+def pySub (a b : Num) : Option Num :=
+  match pyLin .sub a b with
+  | .ok r => some r
+  | .error _ => Option.none
+
+/-- the decision-table entry in Python's numeric tower: the leaves are the `Prob` fragment's `cdf` /
+    `pmf` values, `1 - e`, `e - f`, `max(e, 0)` are Python's operations on them (on floats: IEEE, so
+    that `1 - cdf` cancels exactly as it does in the code; on ints / Fractions: exact) -/
+def evalPN (x : RV) (slots : List (Option Num)) : Prob.PExpr → Option Num
+  | .cdf a => leafNum x slots false a
+  | .pmf a => leafNum x slots true a
+  | .oneSub e => (evalPN x slots e).bind (fun v => pySub (.int 1) v)
+  | .sub e f =>
+    match evalPN x slots e, evalPN x slots f with
+    | some u, some v => pySub u v
+    | _, _ => Option.none
+  | .max0 e => (evalPN x slots e).map (fun v => if cmpLt v (.int 0) then .int 0 else v)
+
 /-- `event.probability()`: the entry of the generated decision table for (operators, position of the
-    variable, discrete?) evaluated by the `Prob` fragment (`Prob.evalRow`) -/
+    variable, discrete?) — the one `Prob.probWritten` evaluates — in Python's numeric tower -/
 def probOfEvent (ops : List Prob.Op) (pos : Nat) (x : RV) (args : List Num) : R Val :=
   if probRefused x args then .error (.unmodelled "huge probability parameter") else
   match Prob.findRow Gen.ProbTable.rows ops pos x.probLaw.isDisc with
   | Option.none => raise (.py "Exception")       -- "Dunno how to evaluate the probability of this event!"
   | some row =>
-    let slots := eventSlots pos args
-    match Prob.evalRow x.probLaw row (slotTerms slots) with
-    | .ok q => .ok (.num (deliver (probFloat x slots row.expr) q))
-    | .error _ => raise (.py "TypeError")        -- a discrete cdf / pmf called with a non-int
+    match evalPN x (eventSlots pos args) row.expr with
+    | some v => .ok (.num v)
+    | Option.none => raise (.py "TypeError")      -- a discrete cdf / pmf called with a non-int
 
 /-- `P(event)` -/
 def bProb : Body := fun _ args =>
